@@ -134,6 +134,7 @@ func (l *Life) BuildStress(g, k int, tag string) {
 	for i := range work {
 		wg.Add(1)
 		go func(items []item) {
+			debug.SetPanicOnFault(true)
 			defer wg.Done()
 			for _, it := range items {
 				var seg segment.Segment
